@@ -154,7 +154,7 @@ func isolate(fn string, args []string) bool {
 // (see isolate.go).
 var isolateRules = map[string]func(args []string, has func(...string) bool) bool{}
 
-const childDeadline = 5 * time.Second
+const childDeadline = 3 * time.Second
 
 // runChild executes the spec in a fresh process under a 3 GiB address-space
 // limit and returns its result, or a failure describing how it died.
@@ -189,16 +189,20 @@ func runChild(spec, sigPrefix string) (res engine.Result) {
 	case <-time.After(childDeadline):
 		_ = cmd.Process.Kill()
 		<-done
-		res.Fail(sigPrefix+" kind=hang", fmt.Sprintf("no outcome within %s in a process of its own", childDeadline))
-		res.Outcome = "hang"
+		res.Fail(sigPrefix+" kind=unbounded", fmt.Sprintf("no outcome within %s in a process of its own (3 GiB address space)", childDeadline))
+		res.Outcome = "unbounded"
 		res.Nontrivial = true
 		res.Hit("isolated")
 		return
 	}
 	if jerr := json.Unmarshal(out.Bytes(), &res); jerr != nil {
 		res = engine.Result{}
-		res.Fail(sigPrefix+" kind=fatal:"+fatalClass(errb.String()), "the process died: "+firstLines(errb.String(), 6))
-		res.Outcome = "fatal"
+		kind := "fatal:" + fatalClass(errb.String())
+		if kind == "fatal:out-of-memory" {
+			kind = "unbounded" // running out of time and running out of memory are two faces of unbounded work
+		}
+		res.Fail(sigPrefix+" kind="+kind, "the process died: "+firstLines(errb.String(), 6))
+		res.Outcome = kind
 		res.Nontrivial = true
 	}
 	res.Hit("isolated")
@@ -349,18 +353,25 @@ func execFunc(spec string) (res engine.Result) {
 		return code.Eval(w.scope, nil)
 	})
 	what := fmt.Sprintf("%s with %s", src, describeArgs(args))
+	o.anyClass = throwsAnything[fn]
 	judgeCall(&res, o, &realClassifier, sigPrefix, what)
 	// Did the call poison the interpreter? A plain type error must still be a plain type error.
 	slip.CurrentPackage = &slip.UserPkg
 	probe := observe(func() slip.Object {
 		s := slip.NewScope()
-		return slip.ReadString("(car 5)", s).Eval(s, nil)
+		return slip.ReadString("(funcall (lambda (x) (car x)) (if t 5 nil))", s).Eval(s, nil)
 	})
-	if fc := realClassifier.classify(probe); fc != "" || probe.kind != "condition" || probe.class != "type-error" {
+	if fc := realClassifier.classify(probe); fc != "" {
 		res.Hit("poisoned")
 		res.Fail(fmt.Sprintf("%s kind=poisons-interpreter then=%s at=%s", sigPrefix, fc, probe.site),
-			what+" => "+o.describe()+"; AFTERWARDS (car 5) in a fresh scope => "+probe.describe())
+			what+" => "+o.describe()+"; AFTERWARDS (funcall (lambda (x) (car x)) 5) in a fresh scope => "+probe.describe())
 		tainted = true
+	} else if probe.kind != "condition" || probe.class != "type-error" {
+		// no fault, but the call changed what cl-user sees (e.g. unexported `lambda`): not this property's
+		// business, yet later cases must not be judged in that world
+		res.Hit("world-changed")
+		tainted = true
+		logLine("WORLD-CHANGED\t" + spec + "\t" + probe.describe())
 	}
 	return
 }
@@ -422,12 +433,18 @@ func isArgCountMessage(msg string) bool {
 // logAccepted is a development aid: with C09_LOG set, catch-all conversions
 // the oracle ACCEPTS are appended there for manual triage.
 func logAccepted(sigPrefix string, o *obs) {
+	if os.Getenv("C09_LOG") != "" {
+		logLine(fmt.Sprintf("%s\t%s\t%s", sigPrefix, o.site, digest(o.msg, 160)))
+	}
+}
+
+func logLine(line string) {
 	path := os.Getenv("C09_LOG")
 	if path == "" {
 		return
 	}
 	if f, err := os.OpenFile(path, os.O_APPEND|os.O_CREATE|os.O_WRONLY, 0o644); err == nil {
-		fmt.Fprintf(f, "%s\t%s\t%s\n", sigPrefix, o.site, digest(o.msg, 160))
+		fmt.Fprintln(f, line)
 		_ = f.Close()
 	}
 }
